@@ -13,6 +13,7 @@ import (
 	"seehuhn.de/go/sfnt/cff"
 	"seehuhn.de/go/sfnt/glyf"
 	"seehuhn.de/go/sfnt/glyph"
+	"seehuhn.de/go/sfnt/opentype/coverage"
 	"seehuhn.de/go/sfnt/opentype/gtab"
 	"seehuhn.de/go/sfnt/os2"
 
@@ -24,9 +25,11 @@ import (
 
 func init() {
 	mon.RegisterCfg("C20", mon.Config{
-		Rule: "generated fonts (TrueType with full / short / no name list, simple CFF, CID-keyed CFF) x name patterns (complete, none, holes, duplicates, names equal to future placeholders or future derived names, invalid names) x cmaps (none/some/all glyphs mapped, several code points per glyph) x GSUB 1.1/1.2/3.1/4.1 lookups over existing glyphs with several rules reaching one target; postconditions of MakeGlyphNames are checked and the call is repeated 12 times (identical?), then EnsureGlyphNames/GlyphName and cff MakeSimple; PostScriptName over family names drawn from all of Unicode incl. every ASCII delimiter. distinct = distinct (name list pattern, cmap, GSUB) inputs (hash)",
+		Rule: "generated fonts (TrueType with full / short / no name list, simple CFF, CID-keyed CFF) x name patterns (complete, none, holes, duplicates, names equal to future placeholders or future derived names, invalid names) x cmaps (none/some/all glyphs mapped, several code points per glyph) x GSUB 1.1/1.2/3.1/4.1 lookups over existing glyphs (glyph 0 included) with one or several subtables per lookup, several rules reaching one target, one-glyph ligatures and lookups of types 2/5/6/8 in between; one font in 97 has 1001..1300 mostly unnamed glyphs; postconditions of MakeGlyphNames are checked and the call is repeated 12 times (identical?), then EnsureGlyphNames/GlyphName and cff MakeSimple; PostScriptName over family names drawn from all of Unicode incl. every ASCII delimiter. distinct = distinct (name list pattern, cmap, GSUB) inputs (hash)",
 		Assumptions: []string{
 			"'Adobe glyph-list name of a code point' is what seehuhn.de/go/postscript/type1/names.FromUnicode returns (external module, not under test)",
+			"lookups of other types than 1, 3, 4 (2.1, 5.1, 6.3, 8.1 are mixed in) are no source of names the property demands; a name given to one of their output glyphs is recorded, not judged",
+			"a TrueType names list whose length differs from the glyph count (shorter or longer) counts as 'no names' (the library's documented reading)",
 			"a derived name is only demanded when its source glyphs were named before the GSUB pass (given or cmap-derived); names derived from names derived in the same pass are accepted, not demanded",
 		},
 	}, runC20)
@@ -39,136 +42,241 @@ type c20rule struct {
 	out glyph.ID
 }
 
-// c20gsub builds random GSUB 1.1/1.2/3.1/4.1 lookups and returns the rules.
-func c20gsub(r *rand.Rand, n int) (*gtab.Info, []c20rule) {
+// c20shape records which of the rarer GSUB shapes a generated table has.
+type c20shape struct {
+	glyph0In, glyph0Out bool // glyph 0 as input / as output of a rule
+	multiSubtable       bool // a lookup with several subtables
+	otherTypes          bool // lookups of types 2, 5, 6, 8 mixed in (not name sources)
+	emptyLigIn          bool // a ligature with no further components
+	otherOut            map[glyph.ID]bool
+}
+
+// c20gsub builds random GSUB 1.1/1.2/3.1/4.1 lookups (one or several subtables
+// per lookup, glyph 0 among the inputs and outputs, lookups of other types in
+// between) and returns the rules of the type 1/3/4 subtables.
+func c20gsub(r *rand.Rand, n int) (*gtab.Info, []c20rule, *c20shape) {
 	if n < 3 {
-		return nil, nil
+		return nil, nil, nil
 	}
 	var rules []c20rule
+	sh := &c20shape{otherOut: map[glyph.ID]bool{}}
 	info := &gtab.Info{
 		ScriptList: gtab.ScriptListInfo{language.MustParse("und-Zzzz-x-dflt"): {Required: 0xFFFF, Optional: []gtab.FeatureIndex{0}}},
 	}
-	gid := func() glyph.ID { return glyph.ID(1 + r.IntN(n-1)) }
+	withZero := r.IntN(4) == 0
+	gid := func() glyph.ID {
+		if withZero && r.IntN(6) == 0 {
+			return 0
+		}
+		return glyph.ID(1 + r.IntN(n-1))
+	}
+	rule := func(in []glyph.ID, out glyph.ID) {
+		rules = append(rules, c20rule{in, out})
+		for _, g := range in {
+			if g == 0 {
+				sh.glyph0In = true
+			}
+		}
+		if out == 0 {
+			sh.glyph0Out = true
+		}
+	}
+	sortedKeys := func(m map[glyph.ID]bool) []glyph.ID {
+		var keys []glyph.ID
+		for g := range m {
+			keys = append(keys, g)
+		}
+		sort.Slice(keys, func(i, j int) bool { return keys[i] < keys[j] })
+		return keys
+	}
 	nl := 1 + r.IntN(3)
 	popular := gid() // a target several rules reach
-	for l := 0; l < nl; l++ {
-		lt := &gtab.LookupTable{Meta: &gtab.LookupMetaInfo{}}
-		switch r.IntN(4) {
-		case 0: // 1.1
-			lt.Meta.LookupType = 1
-			cov := map[glyph.ID]bool{}
-			var mx glyph.ID
-			mn := glyph.ID(n)
+	sub11 := func() gtab.Subtable {
+		cov := map[glyph.ID]bool{}
+		var mx glyph.ID
+		mn := glyph.ID(n)
+		for k := 1 + r.IntN(3); k > 0; k-- {
+			g := gid()
+			cov[g] = true
+			mx = max(mx, g)
+			mn = min(mn, g)
+		}
+		delta := glyph.ID(r.IntN(n - int(mx)))
+		if mn > 1 && r.IntN(2) == 0 {
+			// substitutes with lower glyph ids: the delta is negative, stored
+			// modulo 65536 (-3 = 0xFFFD)
+			delta = -glyph.ID(1 + r.IntN(int(mn)-1))
+		} else if mn >= 1 && withZero && r.IntN(4) == 0 {
+			delta = -mn // the lowest covered glyph is replaced by glyph 0
+		}
+		for _, g := range sortedKeys(cov) {
+			rule([]glyph.ID{g}, g+delta)
+		}
+		return &gtab.Gsub1_1{Cov: cov, Delta: delta}
+	}
+	sub12 := func() gtab.Subtable {
+		srcs := map[glyph.ID]bool{}
+		for k := 1 + r.IntN(4); k > 0; k-- {
+			srcs[gid()] = true
+		}
+		st := &gtab.Gsub1_2{Cov: map[glyph.ID]int{}}
+		for i, g := range sortedKeys(srcs) {
+			to := gid()
+			if r.IntN(2) == 0 {
+				to = popular
+			}
+			st.Cov[g] = i
+			st.SubstituteGlyphIDs = append(st.SubstituteGlyphIDs, to)
+			rule([]glyph.ID{g}, to)
+		}
+		return st
+	}
+	sub31 := func() gtab.Subtable {
+		srcs := map[glyph.ID]bool{}
+		for k := 1 + r.IntN(3); k > 0; k-- {
+			srcs[gid()] = true
+		}
+		st := &gtab.Gsub3_1{Cov: map[glyph.ID]int{}}
+		for i, g := range sortedKeys(srcs) {
+			st.Cov[g] = i
+			var alts []glyph.ID
 			for k := 1 + r.IntN(3); k > 0; k-- {
-				g := gid()
-				cov[g] = true
-				mx = max(mx, g)
-				mn = min(mn, g)
-			}
-			delta := glyph.ID(r.IntN(n - int(mx)))
-			if mn > 1 && r.IntN(2) == 0 {
-				// substitutes with lower glyph ids: the delta is negative, stored
-				// modulo 65536 (-3 = 0xFFFD)
-				delta = -glyph.ID(1 + r.IntN(int(mn)-1))
-			}
-			lt.Subtables = []gtab.Subtable{&gtab.Gsub1_1{Cov: cov, Delta: delta}}
-			var covKeys []glyph.ID
-			for g := range cov {
-				covKeys = append(covKeys, g)
-			}
-			sort.Slice(covKeys, func(i, j int) bool { return covKeys[i] < covKeys[j] })
-			for _, g := range covKeys {
-				rules = append(rules, c20rule{[]glyph.ID{g}, g + delta})
-			}
-		case 1: // 1.2
-			lt.Meta.LookupType = 1
-			srcs := map[glyph.ID]bool{}
-			for k := 1 + r.IntN(4); k > 0; k-- {
-				srcs[gid()] = true
-			}
-			var keys []glyph.ID
-			for g := range srcs {
-				keys = append(keys, g)
-			}
-			sort.Slice(keys, func(i, j int) bool { return keys[i] < keys[j] })
-			st := &gtab.Gsub1_2{Cov: map[glyph.ID]int{}}
-			for i, g := range keys {
 				to := gid()
-				if r.IntN(2) == 0 {
+				if r.IntN(3) == 0 {
 					to = popular
 				}
-				st.Cov[g] = i
-				st.SubstituteGlyphIDs = append(st.SubstituteGlyphIDs, to)
-				rules = append(rules, c20rule{[]glyph.ID{g}, to})
+				alts = append(alts, to)
+				rule([]glyph.ID{g}, to)
 			}
-			lt.Subtables = []gtab.Subtable{st}
-		case 2: // 3.1
-			lt.Meta.LookupType = 3
+			st.Alternates = append(st.Alternates, alts)
+		}
+		return st
+	}
+	sub41 := func() gtab.Subtable {
+		first := map[glyph.ID][]gtab.Ligature{}
+		firstSet := map[glyph.ID]bool{}
+		for k := 1 + r.IntN(4); k > 0; k-- {
+			a := gid()
+			lig := gtab.Ligature{Out: gid()}
+			if r.IntN(3) == 0 {
+				lig.Out = popular
+			}
+			m := 1 + r.IntN(2)
+			if r.IntN(8) == 0 {
+				m = 0 // a "ligature" of one glyph
+			}
+			for ; m > 0; m-- {
+				lig.In = append(lig.In, gid())
+			}
+			dup := false
+			for _, e := range first[a] {
+				dup = dup || fmt.Sprint(e.In) == fmt.Sprint(lig.In)
+			}
+			if !dup {
+				first[a] = append(first[a], lig)
+				firstSet[a] = true
+				rule(append([]glyph.ID{a}, lig.In...), lig.Out)
+				if len(lig.In) == 0 {
+					sh.emptyLigIn = true
+				}
+			}
+		}
+		st := &gtab.Gsub4_1{Cov: map[glyph.ID]int{}}
+		for i, g := range sortedKeys(firstSet) {
+			st.Cov[g] = i
+			st.Repl = append(st.Repl, first[g])
+		}
+		return st
+	}
+	// lookups of the other types: no source of names
+	other := func() *gtab.LookupTable {
+		sh.otherTypes = true
+		out := func() glyph.ID {
+			g := gid()
+			sh.otherOut[g] = true
+			return g
+		}
+		switch r.IntN(4) {
+		case 0: // 2.1 multiple substitution
+			st := &gtab.Gsub2_1{Cov: map[glyph.ID]int{}}
 			srcs := map[glyph.ID]bool{}
 			for k := 1 + r.IntN(3); k > 0; k-- {
 				srcs[gid()] = true
 			}
-			var keys []glyph.ID
-			for g := range srcs {
-				keys = append(keys, g)
-			}
-			sort.Slice(keys, func(i, j int) bool { return keys[i] < keys[j] })
-			st := &gtab.Gsub3_1{Cov: map[glyph.ID]int{}}
-			for i, g := range keys {
+			for i, g := range sortedKeys(srcs) {
 				st.Cov[g] = i
-				var alts []glyph.ID
+				var repl []glyph.ID
 				for k := 1 + r.IntN(3); k > 0; k-- {
-					to := gid()
-					if r.IntN(3) == 0 {
-						to = popular
-					}
-					alts = append(alts, to)
-					rules = append(rules, c20rule{[]glyph.ID{g}, to})
+					repl = append(repl, out())
 				}
-				st.Alternates = append(st.Alternates, alts)
+				st.Repl = append(st.Repl, repl)
 			}
-			lt.Subtables = []gtab.Subtable{st}
-		default: // 4.1
-			lt.Meta.LookupType = 4
-			first := map[glyph.ID][]gtab.Ligature{}
-			for k := 1 + r.IntN(4); k > 0; k-- {
-				a := gid()
-				lig := gtab.Ligature{Out: gid()}
-				if r.IntN(3) == 0 {
-					lig.Out = popular
-				}
-				for m := 1 + r.IntN(2); m > 0; m-- {
-					lig.In = append(lig.In, gid())
-				}
-				dup := false
-				for _, e := range first[a] {
-					dup = dup || fmt.Sprint(e.In) == fmt.Sprint(lig.In)
-				}
-				if !dup {
-					first[a] = append(first[a], lig)
-					rules = append(rules, c20rule{append([]glyph.ID{a}, lig.In...), lig.Out})
-				}
+			return &gtab.LookupTable{Meta: &gtab.LookupMetaInfo{LookupType: 2}, Subtables: []gtab.Subtable{st}}
+		case 1: // 5.1 contextual
+			a := gid()
+			st := &gtab.SeqContext1{Cov: map[glyph.ID]int{a: 0}, Rules: [][]*gtab.SeqRule{{{Input: []glyph.ID{gid()}, Actions: []gtab.SeqLookup{{SequenceIndex: 0, LookupListIndex: 0}}}}}}
+			return &gtab.LookupTable{Meta: &gtab.LookupMetaInfo{LookupType: 5}, Subtables: []gtab.Subtable{st}}
+		case 2: // 6.3 chained contextual
+			st := &gtab.ChainedSeqContext3{Backtrack: []coverage.Set{{gid(): true}}, Input: []coverage.Set{{gid(): true, gid(): true}}, Lookahead: []coverage.Set{{gid(): true}},
+				Actions: []gtab.SeqLookup{{SequenceIndex: 0, LookupListIndex: 0}}}
+			return &gtab.LookupTable{Meta: &gtab.LookupMetaInfo{LookupType: 6}, Subtables: []gtab.Subtable{st}}
+		default: // 8.1 reverse chaining
+			st := &gtab.Gsub8_1{Input: coverage.Table{}, Lookahead: []coverage.Table{{gid(): 0}}}
+			srcs := map[glyph.ID]bool{}
+			for k := 1 + r.IntN(3); k > 0; k-- {
+				srcs[gid()] = true
 			}
-			var keys []glyph.ID
-			for g := range first {
-				keys = append(keys, g)
+			for i, g := range sortedKeys(srcs) {
+				st.Input[g] = i
+				st.SubstituteGlyphIDs = append(st.SubstituteGlyphIDs, out())
 			}
-			sort.Slice(keys, func(i, j int) bool { return keys[i] < keys[j] })
-			st := &gtab.Gsub4_1{Cov: map[glyph.ID]int{}}
-			for i, g := range keys {
-				st.Cov[g] = i
-				st.Repl = append(st.Repl, first[g])
+			return &gtab.LookupTable{Meta: &gtab.LookupMetaInfo{LookupType: 8}, Subtables: []gtab.Subtable{st}}
+		}
+	}
+	mixOthers := r.IntN(5) == 0
+	for l := 0; l < nl; l++ {
+		if mixOthers && r.IntN(2) == 0 {
+			info.LookupList = append(info.LookupList, other())
+		}
+		lt := &gtab.LookupTable{Meta: &gtab.LookupMetaInfo{}}
+		nsub := 1
+		if r.IntN(4) == 0 {
+			nsub = 2 + r.IntN(2)
+			sh.multiSubtable = true
+		}
+		kind := r.IntN(4)
+		for s := 0; s < nsub; s++ {
+			switch kind {
+			case 0, 1: // type 1: both formats may share a lookup
+				lt.Meta.LookupType = 1
+				which := kind
+				if nsub > 1 {
+					which = r.IntN(2)
+				}
+				if which == 0 {
+					lt.Subtables = append(lt.Subtables, sub11())
+				} else {
+					lt.Subtables = append(lt.Subtables, sub12())
+				}
+			case 2:
+				lt.Meta.LookupType = 3
+				lt.Subtables = append(lt.Subtables, sub31())
+			default:
+				lt.Meta.LookupType = 4
+				lt.Subtables = append(lt.Subtables, sub41())
 			}
-			lt.Subtables = []gtab.Subtable{st}
 		}
 		info.LookupList = append(info.LookupList, lt)
+	}
+	if mixOthers && r.IntN(2) == 0 {
+		info.LookupList = append(info.LookupList, other())
 	}
 	feat := &gtab.Feature{Tag: "liga"}
 	for i := range info.LookupList {
 		feat.Lookups = append(feat.Lookups, gtab.LookupIndex(i))
 	}
 	info.FeatureList = gtab.FeatureListInfo{feat}
-	return info, rules
+	return info, rules, sh
 }
 
 // c20names overwrites the glyph names of f according to a pattern and
@@ -251,6 +359,16 @@ func c20names(r *rand.Rand, f *sfnt.Font, n int, cidKeyed bool) (given []string,
 				given[i] = ""
 			}
 			pattern = "short-list"
+		case r.IntN(8) == 0:
+			// ... also one that is longer than the glyph list
+			o.Names = append([]string{}, given...)
+			for i := 1 + r.IntN(3); i > 0; i-- {
+				o.Names = append(o.Names, fmt.Sprintf("extra%d", i))
+			}
+			for i := range given {
+				given[i] = ""
+			}
+			pattern = "long-list"
 		default:
 			o.Names = append([]string{}, given...)
 		}
@@ -263,18 +381,46 @@ func runC20(c *mon.Ctx) {
 		r := k.Rng
 		kind := []string{"glyf", "cff", "cid"}[k.Index%3]
 		o := fontgen.Opts{Kind: kind, MinGlyphs: 1, MaxGlyphs: 24, Plain: true, NoComposite: true, CMap: []string{"none", "4", "12", "4", "mac"}[r.IntN(5)]}
+		// more than 999 glyphs: the numbered placeholders outgrow their three digits
+		many := k.Index%97 == 5
+		if many {
+			o.MinGlyphs, o.MaxGlyphs = 1001, 1300
+			if k.Index/97%2 == 0 {
+				o.CMap = "none" // nothing but rules and placeholders
+			}
+		}
+		var shape *c20shape
 		build := func(rr *rand.Rand) (*sfnt.Font, *fontgen.Info, []string, string, []c20rule) {
 			f, info := fontgen.Font(rr, o)
 			n := f.NumGlyphs()
 			given, pattern := c20names(rr, f, n, kind == "cid")
+			if many && pattern != "cid-keyed" && pattern != "short-list" && pattern != "long-list" && pattern != "none" {
+				// leave most glyphs unnamed
+				for i := 1; i < n; i++ {
+					if rr.IntN(50) != 0 {
+						given[i] = ""
+					}
+				}
+				switch oo := f.Outlines.(type) {
+				case *cff.Outlines:
+					for i, g := range oo.Glyphs {
+						g.Name = given[i]
+					}
+				case *glyf.Outlines:
+					oo.Names = append([]string{}, given...)
+				}
+			}
 			var rules []c20rule
 			if rr.IntN(4) != 0 {
-				f.Gsub, rules = c20gsub(rr, n)
+				f.Gsub, rules, shape = c20gsub(rr, n)
 			}
 			return f, info, given, pattern, rules
 		}
 		seedA, seedB := r.Uint64(), r.Uint64()
 		f, info, given, pattern, rules := build(rand.New(rand.NewPCG(seedA, seedB)))
+		if shape == nil {
+			shape = &c20shape{}
+		}
 		n := f.NumGlyphs()
 		desc := fmt.Sprintf("kind=%s glyphs=%d cmap=%s pattern=%s given=%q rules=%v", kind, n, info.CMap, pattern, given, rules)
 		if len(desc) > 900 {
@@ -406,11 +552,47 @@ func runC20(c *mon.Ctx) {
 						ok = true
 					}
 				}
+				if !ok && shape.otherOut[glyph.ID(i)] {
+					// produced by a lookup of another type (2, 8): the property names variant and
+					// ligature names only; a name derived there is recorded, not judged
+					k.Class("source:other-lookup-type")
+					continue
+				}
 				if !ok {
 					k.Fail("mismatch", "unexplained-name", "glyph %d got the name %q which is neither given, nor a glyph-list name of a mapped code point, nor derived from a rule, nor a placeholder; list=%q (%s)", i, list[i], list, desc)
 					return
 				}
 				k.Class("source:substitution-chain")
+			}
+		}
+		if shape.glyph0In {
+			k.Class("gsub:glyph-0-as-input")
+			for _, s := range list {
+				if strings.HasPrefix(s, ".notdef.") || strings.HasPrefix(s, ".notdef_") || strings.Contains(s, "_.notdef") {
+					k.Class("gsub:name-derived-from-.notdef")
+					break
+				}
+			}
+		}
+		if shape.glyph0Out {
+			k.Class("gsub:glyph-0-as-output")
+		}
+		if shape.multiSubtable {
+			k.Class("gsub:several-subtables-per-lookup")
+		}
+		if shape.otherTypes {
+			k.Class("gsub:other-lookup-types-mixed-in")
+		}
+		if shape.emptyLigIn {
+			k.Class("gsub:ligature-of-one-glyph")
+		}
+		if n > 1000 {
+			k.Class("glyphs>1000")
+			for _, s := range list {
+				if ornRe.MatchString(s) && len(s) >= 7 {
+					k.Class("placeholder:four-digits")
+					break
+				}
 			}
 		}
 		targets := map[glyph.ID]int{}
@@ -563,7 +745,9 @@ func runC20(c *mon.Ctx) {
 			k.Sample(fmt.Sprintf("family %q -> %q", f.FamilyName, ps))
 		}
 	})
-	c.Require("pattern=complete", "pattern=none", "pattern=holes", "pattern=duplicates", "pattern=placeholder-clash", "pattern=derived-clash", "pattern=invalid", "pattern=cid-keyed", "pattern=short-list",
+	c.Require("pattern=complete", "pattern=none", "pattern=holes", "pattern=duplicates", "pattern=placeholder-clash", "pattern=derived-clash", "pattern=invalid", "pattern=cid-keyed", "pattern=short-list", "pattern=long-list",
+		"gsub:glyph-0-as-input", "gsub:glyph-0-as-output", "gsub:name-derived-from-.notdef", "gsub:several-subtables-per-lookup", "gsub:other-lookup-types-mixed-in", "gsub:ligature-of-one-glyph",
+		"glyphs>1000", "placeholder:four-digits",
 		"source:given", "source:cmap", "source:substitution", "source:placeholder", "two-rules-one-target", "makesimple", "psname")
 }
 
